@@ -37,6 +37,10 @@ pub(crate) use connection::Permit;
 pub(crate) use protocol_set::{InnerTransportEvent, ProtocolCommand, ProtocolSet};
 
 pub use transport_service::{SubstreamKeepAlive, TransportService};
+#[cfg(litep2p_verif)]
+pub(crate) use transport_service::verif_c08;
+#[cfg(litep2p_verif)]
+pub(crate) use transport_service::verif_c09;
 
 pub mod libp2p;
 pub mod mdns;
